@@ -350,7 +350,8 @@ def obligations(tier):
   return [
       Ob('tree_mirrors_modules', tree_mirrors_modules,
          dict(nk=I(0, 2), n0=npool, n1=npool,
-              own=I(0, 3 if quick else len(OWN_POOL) - 1), own_first=B(), reuse=B(),
+              own=I(0, 3 if quick else len(OWN_POOL) - 1), own_first=B(),
+              reuse=I(0, 0) if quick else B(),
               vn=I(0, 1 if quick else 3), x=I(-3, 3), w_new=I(-3, 3),
               var_first=B()),
          split=('nk', 'n0', 'n1', 'own'), timeout=900, funcs=F,
